@@ -317,7 +317,8 @@ func ruleInsideArmMirror(rule string) func(*Ctx) {
 			})
 		}
 		if sw == nil {
-			fatalf("getNextLocation: Inside arm has no tagless switch")
+			c.note("%s: the Inside arm has no tagless switch; its classification is decided by the semantic rule C06.inside.strict alone", rule)
+			return
 		}
 		cases := map[string]string{}
 		for _, s := range sw.Body.List {
@@ -1964,7 +1965,9 @@ func ruleSegIntersectMirrorSem(rule string) func(*Ctx) {
 		type blk struct{ q, a, b string }
 		blocks := []blk{{"p1", "p3", "p4"}, {"p2", "p3", "p4"}, {"p3", "p1", "p2"}, {"p4", "p1", "p2"}}
 		zero := func(b blk) string { return "(CrossProduct(" + b.q + ", " + b.a + ", " + b.b + ") == 0)" }
-		isDispatch := func(e string) bool { return strings.HasPrefix(e, "(CrossProduct(") || strings.HasPrefix(e, "((CrossProduct(") }
+		isDispatch := func(e string) bool {
+			return strings.HasPrefix(e, "(CrossProduct(") || strings.HasPrefix(e, "((CrossProduct(")
+		}
 		sigs := make([]map[string]bool, len(blocks))
 		for k, b := range blocks {
 			sigs[k] = map[string]bool{}
@@ -2040,5 +2043,114 @@ func ruleSegIntersectMirrorSem(rule string) func(*Ctx) {
 		c.check(bad == "", rule, rule+":getSegmentIntersection:end-point-blocks", f.Pos(), "getSegmentIntersection",
 			fmt.Sprintf("the four end-point cases coincide under renaming (%d reduced paths each)", len(sigs[0])), bad,
 			"the rectangle's edges are passed in both directions (the bottom edge right-to-left): a between-test that is right for one end point or one direction and wrong for another misses a vertex lying exactly on that edge")
+	}
+}
+
+// ruleInsideArmStrict: semantic form of the Inside-arm rule of getNextLocation. While the path is inside the
+// rectangle every vertex is copied until one lies STRICTLY outside: on every path through the copying loop that
+// leaves with *loc set to a side, the deciding comparison is the strict one against that side's own edge
+// (X < left -> Left, X > right -> Right, Y < top -> Top, Y > bottom -> Bottom). A vertex exactly on an edge stays
+// Inside. The rule follows fresh helpers (inlined by the explorer); a classification delegated to a recorded
+// function (getLocation treats on-edge vertices as outside) is reported.
+func ruleInsideArmStrict(rule string) func(*Ctx) {
+	return func(c *Ctx) {
+		f := c.fn("(RectClip64).getNextLocation")
+		name := "(RectClip64).getNextLocation"
+		var ll *loopInfo
+		for _, l := range naturalLoops(f) {
+			for b := range l.blocks {
+				for _, in := range b.Instrs {
+					if ci, ok := in.(ssa.CallInstruction); ok && calleeName(c, ci) == "(RectClip64).add" {
+						ll = l
+					}
+				}
+			}
+		}
+		if ll == nil {
+			c.fail(rule, rule+":getNextLocation:copy-loop", f.Pos(), name, "no loop in getNextLocation copies interior vertices with (RectClip64).add", "the Inside state copies vertices until one leaves the rectangle")
+			return
+		}
+		locP := param(f, "loc", 2)
+		// the blocks that set *loc and break are outside the natural loop: explore on to the function's return
+		ex := &explorer{c: c, f: f, maxPaths: 4000, pureMemo: true}
+		outs := ex.explore(ll.header)
+		want := map[string][3]string{ // side -> coordinate, rect field, strict operator (point on the left)
+			"Left": {".X", ".left", "<"}, "Right": {".X", ".right", ">"}, "Top": {".Y", ".top", "<"}, "Bottom": {".Y", ".bottom", ">"},
+		}
+		sideName := map[int64]string{}
+		for _, e := range c.enumValues("Location") {
+			sideName[e.val] = e.name
+		}
+		seen := map[string]bool{}
+		bad := map[string]string{}
+		for _, p := range outs {
+			if p.end == "loop" {
+				continue
+			}
+			// the last store through loc on this path
+			var st *storeRec
+			for i := range p.stores {
+				if locP != nil && p.stores[i].addr == "*"+ex.cn(locP.Name()) {
+					st = &p.stores[i]
+				}
+			}
+			if st == nil {
+				continue
+			}
+			if st.val.abs.k != aInt {
+				bad["?"] = fmt.Sprintf("*loc is set from %s, not from the arm's own strict comparisons (path: %s)", st.val.expr, p.condString())
+				seen["?"] = true
+				continue
+			}
+			side := sideName[st.val.abs.i]
+			w, ok := want[side]
+			if !ok {
+				continue
+			}
+			seen[side] = true
+			// deciding comparison: the last condition on the path that mentions the side's rect field
+			found := false
+			for i := len(p.conds) - 1; i >= 0 && !found; i-- {
+				cd := p.conds[i]
+				bo, ok := cd.val.(*ssa.BinOp)
+				if !ok || !strings.Contains(cd.expr, w[1]) {
+					continue
+				}
+				found = true
+				op := bo.Op
+				if !cd.taken {
+					op = map[token.Token]token.Token{token.LSS: token.GEQ, token.GEQ: token.LSS, token.GTR: token.LEQ, token.LEQ: token.GTR}[op]
+				}
+				// orient: point coordinate on the left
+				parts := strings.SplitN(cd.expr, " "+bo.Op.String()+" ", 2)
+				if len(parts) == 2 && strings.Contains(parts[0], w[1]) && strings.Contains(parts[1], w[0]) {
+					op = map[token.Token]token.Token{token.LSS: token.GTR, token.GTR: token.LSS, token.LEQ: token.GEQ, token.GEQ: token.LEQ}[op]
+				} else if len(parts) != 2 || !strings.Contains(parts[0], w[0]) {
+					bad[side] = fmt.Sprintf("leaving towards %s is decided by `%s`, which does not compare the vertex's %s with the rectangle's %s", side, cd.expr, w[0][1:], w[1][1:])
+					continue
+				}
+				if op.String() != w[2] {
+					bad[side] = fmt.Sprintf("leaving towards %s is decided by %s %s %s (path: %s), want the strict %s: a vertex exactly on the edge is no longer kept Inside", side, w[0][1:], op, w[1][1:], p.condString(), w[2])
+				}
+			}
+			if !found && bad[side] == "" {
+				bad[side] = fmt.Sprintf("*loc = %s without a comparison against the rectangle's %s (path: %s)", side, w[1][1:], p.condString())
+			}
+		}
+		for _, side := range []string{"Left", "Right", "Top", "Bottom"} {
+			d := bad[side]
+			if !seen[side] && d == "" {
+				d = bad["?"]
+				if d == "" {
+					d = "no path through the copying loop leaves towards " + side
+				}
+			}
+			c.check(d == "", rule, fmt.Sprintf("%s:getNextLocation:Inside:%s", rule, side), ll.header.Instrs[0].Pos(), name,
+				"a vertex leaves the Inside state towards "+side+" only when it is strictly beyond that edge", d,
+				"RectClip treats a vertex ON the rectangle's edge as inside while copying: calling it outside flips the state machine and a spurious corner (or a dropped vertex) appears in the result")
+		}
+		if ex.overflow {
+			fatalf("%s: path budget exceeded", rule)
+		}
 	}
 }
